@@ -38,6 +38,12 @@ where
     /// let mut g = Graph::<&str, u64, u64>::new();
     /// ```
     pub fn new() -> Self {
+        #[cfg(gdsl_verif)]
+        if let Some(s) = crate::verif::hash_state() {
+            return Self {
+                nodes: HashMap::with_hasher(s),
+            };
+        }
         Self {
             nodes: HashMap::default(),
         }
